@@ -30,7 +30,8 @@ ASSUMPTIONS = [
     "covered by Chen's relation in C03",
 ]
 REQUIRED_COUNTERS = ["A_pairs", "A_bridge_cases", "B_nodes", "B_davie", "B_foster", "C_elements", "D_stats",
-                     "A_halfway", "A_overlapping_pairs", "A_disjoint_pairs", "A_deep_cases", "B_deep_cases"]
+                     "A_halfway", "A_overlapping_pairs", "A_disjoint_pairs", "A_deep_cases", "B_deep_cases",
+                     "B_reversed_view_used_in_between"]
 THRESHOLDS = {"A_cov_abs": 1e-11, "B_rel": 1e-10, "C_rel": 1e-10, "D_z": 5.5}
 K = 4096
 
@@ -345,7 +346,14 @@ def run_B(case):
         for (a, b) in pr:
             bm(a, b, return_A=True)
             extra += [(p._start, p._end) for p in tp.last_pieces[:2]]
+        import torchsde as _ts
+        rev = _ts.ReverseBrownian(bm)
         for (a, b) in pr + extra:
+            if rng.random() < 0.5:
+                # a reversed view of the same object is used in between (as every adjoint backward pass does): the law of
+                # what the object itself returns afterwards is unchanged
+                rev(-b, -a, return_U=True, return_A=True)
+                cnt["B_reversed_view_used_in_between"] = cnt.get("B_reversed_view_used_in_between", 0) + 1
             W, U, A = bm(a, b, return_U=True, return_A=True)
             pieces = tp.last_pieces
             if len(pieces) != 1:
